@@ -515,6 +515,67 @@ def check_poles(w, rep):
                     "the gimbal branch for pitch %s does not reproduce the rotation" % label)
 
 
+def check_pole_approach(w, rep):
+    """Inside the gimbal band but not on the pole (pitch = +-pi/2 -+ delta, 0 < delta < band): cos(pitch) > 0 is a common
+    positive factor of R[2,1], R[2,2], R[1,0], R[0,0], and atan2(k y, k x) = atan2(y, x) for k > 0.  After that exact
+    cancellation the limit delta -> 0 of the pole branch must reproduce the matrix: a pole branch that returns the
+    regular-branch roll next to a yaw that already contains it is right AT the pole (atan2(0,0) = 0) and off by the roll
+    angle everywhere else in the band."""
+    E = w.G("SO3EulerB321")
+    W = w.method_where(E, "from_Matrix")[:2]
+    psi, th, phi = w.sym("psi"), w.sym("theta"), w.sym("phi")
+    e = w.elem(E, cm.vertcat(psi, th, phi))
+    ok, vals = guarded(w, rep, "C07.euler", "pole approach", lambda: (w.call(e, "to_Matrix"), w.call(E, "from_Matrix", w.call(e, "to_Matrix"))))
+    if not ok:
+        return
+    M, back = vals
+    p = w.param(back)
+    conds = pole_conditions(p)
+    reg = assign_ites(p, {c: False for c in conds})
+    pitch = reg.cells[1][0] if reg.r == 3 else None
+    cth = cm.un("cos", th.s()).single_atom()
+    sth = cm.un("sin", th.s()).single_atom()
+    if cth is None or sth is None or pitch is None:
+        return
+
+    def cancel(a):
+        if a.kind != "atan2":
+            return None
+        y, x = a.key[0], a.key[1]
+        if y.t and x.t and all(any(f is cth and e_ >= 1 for f, e_ in m) for q in (y, x) for m in q.t):
+            ic = Poly({((cth, -1),): 1})
+            return cm._bin("atan2", y * ic, x * ic)
+        return None
+
+    for c in conds:
+        b = pole_band(c, pitch)
+        if b is None or b[0] == 0:
+            continue
+        sgn = b[0]
+        label = "%spi/2" % ("+" if sgn > 0 else "-")
+        sel = assign_ites(p, {c2: (c2 == c) for c2 in conds})
+        memo = {}
+        sel = MatVal(sel.r, sel.c, [[deep_subs(q, cancel, memo) for q in row] for row in sel.cells], sel.kind)
+        at_pole = {cth: Poly(), sth: Poly.const(sgn), th.s().single_atom(): cm.PI_POLY.scale(Fraction(sgn, 2))}
+        memo2 = {}
+        lim = lambda Mx: MatVal(Mx.r, Mx.c, [[deep_subs(q, lambda a: at_pole.get(a), memo2) for q in row] for row in Mx.cells], Mx.kind)
+        inst = "pitch -> %s inside the band: limit of the pole branch reproduces the matrix" % label
+        try:
+            sel0, M0 = lim(sel), lim(M)
+            M2 = w.call(w.elem(E, sel0), "to_Matrix")
+        except (InterpRaise, Unsupported) as ex:
+            rep.na("C07.euler", inst, "limit not computable: %s" % ex)
+            continue
+        with with_maxdeg(20):
+            v, d = decide_mat(M2, M0, ())
+        if v == EQUAL:
+            rep.ok("C07.euler", inst)
+        elif v == DIFFERENT:
+            rep.fail("C07.euler", inst, "approaching the pole from inside the band (cos(pitch) > 0 cancelled exactly in the two-argument arctangents) the pole branch returns another rotation: %s" % d, where=W)
+        else:
+            rep.na("C07.euler", inst, "not decided: %s" % d)
+
+
 def check_flow(w, rep):
     """Routing of the conversions that are defined by composition."""
     Q, Mr, D, E = (w.G(n) for n in SO3_REPS)
@@ -557,6 +618,7 @@ def run(w, rep, tier):
     check_from_matrix(w, rep)
     check_siblings_and_validity(w, rep)
     check_poles(w, rep)
+    check_pole_approach(w, rep)
     check_antipode(w, rep)
     check_flow(w, rep)
     rep.floor("C07.API", 12)
